@@ -5,7 +5,7 @@ import concurrent.futures as cf, json, os, re, subprocess, sys, shutil
 
 ENV = dict(os.environ, GOFLAGS="-mod=mod", GOPROXY="off", GOSUMDB="off", GOTOOLCHAIN="local")
 HEAD = subprocess.check_output(["git", "-C", "/repo", "rev-parse", "HEAD"]).decode().strip()
-EXTRA = {"C11-a": ["C10"], "C10-b": ["C09"], "C02-a": ["C03"], "C02-b": ["C18"], "C13-b": ["C18"], "C20-b": ["C17"], "C14-d": ["C16"], "C10-d": ["C09"], "C04-d": ["C05"], "C13-c": ["C14"], "C05-c": ["C04"], "C04-f": ["C11"], "C11-e": ["C10"], "C08-g": ["C05"], "C14-g": ["C20"], "C09-g": ["C10"], "C05-h": ["C10"], "C02-g": ["C13"], "C08-i": ["C04"], "C05-i": ["C07"], "C13-j": ["C20"], "C09-i": ["C11"], "C20-j": ["C12"], "C04-i": ["C11"], "C02-i": ["C13"], "C02-j": ["C13"], "C04-k": ["C11"], "C04-l": ["C11"], "C05-k": ["C11"], "C05-l": ["C04"], "C09-k": ["C10"], "C11-k": ["C05", "C04"], "C12-k": ["C05", "C01"], "C13-l": ["C20", "C15"], "C15-l": ["C16"], "C16-k": ["C15"], "C14-l": ["C13"], "C01-l": ["C12"], "C02-k": ["C01"], "C02-l": ["C07"], "C20-l": ["C17"], "C19-l": ["C01"], "C04-m": ["C13", "C01"], "C04-n": ["C05"], "C13-n": ["C18"], "C17-m": ["C20"], "C18-n": ["C17"], "C16-n": ["C04"], "C12-n": ["C01"], "C11-n": ["C05"], "C20-n": ["C13"], "C19-m": ["C01"], "C12-m": ["C01"]}
+EXTRA = {"C11-a": ["C10"], "C10-b": ["C09"], "C02-a": ["C03"], "C02-b": ["C18"], "C13-b": ["C18"], "C20-b": ["C17"], "C14-d": ["C16"], "C10-d": ["C09"], "C04-d": ["C05"], "C13-c": ["C14"], "C05-c": ["C04"], "C04-f": ["C11"], "C11-e": ["C10"], "C08-g": ["C05"], "C14-g": ["C20"], "C09-g": ["C10"], "C05-h": ["C10"], "C02-g": ["C13"], "C08-i": ["C04"], "C05-i": ["C07"], "C13-j": ["C20"], "C09-i": ["C11"], "C20-j": ["C12"], "C04-i": ["C11"], "C02-i": ["C13"], "C02-j": ["C13"], "C04-k": ["C11"], "C04-l": ["C11"], "C05-k": ["C11"], "C05-l": ["C04"], "C09-k": ["C10"], "C11-k": ["C05", "C04"], "C12-k": ["C05", "C01"], "C13-l": ["C20", "C15"], "C15-l": ["C16"], "C16-k": ["C15"], "C14-l": ["C13"], "C01-l": ["C12"], "C02-k": ["C01"], "C02-l": ["C07"], "C20-l": ["C17"], "C19-l": ["C01"], "C04-m": ["C11", "C13"], "C04-n": ["C05"], "C13-n": ["C18"], "C17-m": ["C20"], "C18-n": ["C17"], "C16-n": ["C04"], "C12-n": ["C01"], "C11-n": ["C05"], "C20-n": ["C13"], "C19-m": ["C01"], "C12-m": ["C01"]}
 
 
 def sh(cmd, cwd, env=ENV, timeout=3600):
